@@ -15,12 +15,12 @@ RULE = (
 ASSUMPTIONS = [
     "superposition compared relative to |a| max|S1| + |b| max|S2| with the conditioning-aware tolerance max(1e-9, 5000 eps e^G)",
 ]
-MIN_NONTRIVIAL = {"quick": 120, "thorough": 2000}
-TIMEOUT = {"quick": 900, "thorough": 3000}
+MIN_NONTRIVIAL = {"quick": 120, "thorough": 8000}
+TIMEOUT = {"quick": 900, "thorough": 7000}
 
 
 def cases(tier, seed):
-    n = 192 if tier == "quick" else 3200
+    n = 192 if tier == "quick" else 16000
     return [{"seed": seed, "idx": i} for i in range(n)]
 
 
